@@ -215,6 +215,9 @@ func main() {
 	if len(os.Args) > 1 && os.Args[1] == "probe" { // probe <shape> <engine> <cause> <moment>: one case in-process (debugging)
 		m, _ := strconv.Atoi(os.Args[5])
 		c := caseSpec{Shape: os.Args[2], Engine: os.Args[3], Cause: os.Args[4], Moment: m}
+		if len(os.Args) > 6 {
+			c.Conc = os.Args[6]
+		}
 		sh := p.byID[c.Shape]
 		if sh == nil {
 			fw.Fatalf("unknown shape %q", c.Shape)
@@ -310,7 +313,11 @@ func main() {
 						hangOnInterp[sh.ID] = true
 					}
 					outcomes.Inc("hang")
-					run.Violation(fmt.Sprintf("hang:%s-cycle:%s:%s", sh.Class, c.Engine, sh.Cycle),
+					hsig := fmt.Sprintf("hang:%s-cycle:%s:%s", sh.Class, c.Engine, sh.Cycle)
+					if c.Conc != "" {
+						hsig += ":" + c.Conc
+					}
+					run.Violation(hsig,
 						fmt.Sprintf("%s: the call did not return within %.0f s after the cause was in place and the module observed closed (%s at t=%.3fs); guest: %s",
 							c, observed, kind, t, sh.Desc), rp)
 					samples.Add(map[string]any{"case": c.String(), "result": "hang"})
